@@ -300,6 +300,7 @@ class Extractor:
             raise Unsupported("signature of _validate_inputs")
         ex = self.symexec(cls, {"loc": "scalar", "scale": "scalar"}, {})
         valid_types, type_checked, cond, den = None, [], None, None
+        domain, den_assigned = None, False
         for st in fn.body:
             if isinstance(st, ast.Expr) and isinstance(st.value, ast.Constant) and isinstance(st.value.value, str):
                 continue
@@ -311,6 +312,7 @@ class Extractor:
                 if cond is not None:
                     raise Unsupported("assignment after the denominator assertion")
                 ex.env[name] = ex.ev(st.value)
+                den_assigned = True
                 continue
             if isinstance(st, ast.Assert):
                 t = st.test
@@ -320,6 +322,19 @@ class Extractor:
                         and ast.unparse(t.comparators[0]) == "valid_types" and valid_types is not None and cond is None:
                     type_checked.append(t.left.args[0].id)
                     continue
+                # the domain guard: a conjunction of `np.isfinite(v)` and `v > 0` / `0 < v` terms over loc / scale, before the denominator
+                if cond is None and den_assigned is False and isinstance(t, ast.BoolOp) and isinstance(t.op, ast.And) and domain is None:
+                    fin, pos = [], []
+                    for term in t.values:
+                        if isinstance(term, ast.Call) and ast.unparse(term.func) == "np.isfinite" and len(term.args) == 1 \
+                                and isinstance(term.args[0], ast.Name) and term.args[0].id in ("loc", "scale"):
+                            fin.append(term.args[0].id)
+                        elif isinstance(term, ast.Compare) and len(term.ops) == 1 and ast.unparse(term) in ("scale > 0", "0 < scale", "loc > 0", "0 < loc"):
+                            pos.append("scale" if "scale" in ast.unparse(term) else "loc")
+                        else:
+                            raise Unsupported("_validate_inputs: term of the domain guard " + ast.unparse(term)[:60])
+                    domain = {"finite": fin, "positive": pos, "after_type_checks": len(type_checked)}
+                    continue
                 if cond is None and isinstance(t, ast.Compare):
                     cond = ex.ev(t)
                     continue
@@ -328,7 +343,8 @@ class Extractor:
             raise Unsupported("_validate_inputs: no denominator assertion / valid_types")
         if not (cond[0] == "cmp" and cond[1] == "!=" and pyexpr.is_num(cond[3], 0)):
             raise Unsupported("_validate_inputs: asserted condition is not `<denominator> != 0`")
-        return {"valid_types": valid_types, "type_checked": type_checked, "accept_cond": cond, "denominator": cond[2]}
+        return {"valid_types": valid_types, "type_checked": type_checked, "accept_cond": cond, "denominator": cond[2],
+                "domain": domain or {"finite": [], "positive": [], "after_type_checks": len(type_checked)}}
 
     # ---- constant pulses -----------------------------------------------------------------------------
     def constant(self, cls):
@@ -407,6 +423,7 @@ def frac(q, ty="ℝ"):
 def generate():
     ir = extract()
     g, k = ir["gaussian"], ir["constants"]
+    dom = g.get("domain") or {"finite": [], "positive": []}
     eps, tol = Fraction(k["epsilon"]), Fraction(k["mono_tol"])
     parts = [f"""import QG.Lemmas.NormalDist
 /-! GENERATED on every run by harness/gen/pulse.py from the source text of {SRC}.  Do not edit.
@@ -431,6 +448,11 @@ noncomputable def gaussianDenominator (loc scale : ℝ) : ℝ :=
 /-- the condition `_validate_inputs` asserts about it -/
 def gaussianInputsAccepted (loc scale : ℝ) : Prop :=
   {cond_to_lean(g['accept_cond'])}
+
+/-- the domain guard `_validate_inputs` asserts before computing the denominator: `np.isfinite` of {dom['finite']} (true of every real
+number) and positivity of {dom['positive']}; `True` when the source has no such assertion -/
+def gaussianDomainOk (loc scale : ℝ) : Prop :=
+  {' ∧ '.join(f'0 < {v}' for v in dom['positive']) if dom['positive'] else 'True'}
 
 /-- `Pulse.epsilon = {eps.numerator}/{eps.denominator}` and `Pulse.check_n_points` -/
 def pulseEpsilonNum : ℕ := {eps.numerator}
